@@ -745,11 +745,11 @@ pub mod pipe {
         }
     }
 
-    pub fn source_into_real(s: Box<dyn VSource>) -> Box<dyn crate::pipe::Source> {
+    pub(crate) fn source_into_real(s: Box<dyn VSource>) -> Box<dyn crate::pipe::Source> {
         Box::new(SourceAdapter(s))
     }
 
-    pub fn sink_into_real(s: Box<dyn VSink>) -> Box<dyn crate::pipe::Sink> {
+    pub(crate) fn sink_into_real(s: Box<dyn VSink>) -> Box<dyn crate::pipe::Sink> {
         Box::new(SinkAdapter(s))
     }
 
